@@ -79,7 +79,7 @@ def validate_events(run, events, label, engine):
         path = vlib.workfile("c19-%s-%d.ndjson" % (label, start))
         vlib.write_ndjson(path, chunk)
         try:
-            ok, info = vlib.validate_trace("Trace_AllocAbs", "Trace_AllocAbs", path, timeout=1800, tag="c19v")
+            ok, info = vlib.validate_trace("Trace_AllocAbs", "Trace_AllocAbs", path, timeout=1200, tag="c19v")
         except vlib.ToolError as e:
             if "timed out" not in str(e) or engine != "alloc-stress":
                 raise
@@ -235,7 +235,7 @@ def run(tier, seed):
     # ---- V: free-running stress validated by TLC
     plans = [(1, 40, 6), (2, 30, 4), (4, 20, 3), (8, 10, 2)]
     if thorough:
-        plans = [(1, 200, 8), (2, 150, 5), (3, 100, 4), (4, 60, 3), (8, 40, 2), (16, 20, 1)]
+        plans = [(1, 200, 8), (2, 150, 5), (3, 100, 4), (4, 60, 3), (8, 16, 2), (16, 8, 1)]
     nstress = 0
     traces = []
     for limit in (4096, 24):
